@@ -10,7 +10,7 @@ from ..model import AnchorMissing, Func, Undecided, bind_args, dotted, norm, wal
 from ..report import Ctx
 from ..variants import Variant
 from .c03 import BEATS_REF, _ancestors, _neg, _score_thr_key, add_entry_func, pure_labelmap_method
-from .common import MatcherAtoms, assignments_to, calls_resolving_to, matcher_loop, metric_enum_class, resolve_alias, single_def
+from .common import MatcherAtoms, assignments_to, labelmap_api, calls_resolving_to, matcher_loop, metric_enum_class, resolve_alias, single_def
 
 INFO = {
     "explanation": "Path conditions of both add_labelmap_entry sites of MaximizeMergeMatching._match_instances are evaluated on the full truth table over (prediction assigned, reference assigned, metric direction, ordering(score,threshold), ordering(new combined score, recorded score)): (R14.1) prediction unassigned at both sites; (R14.2) a reference is first matched only by a single prediction meeting the threshold; (R14.3) a merge is accepted exactly on strict improvement in the metric's direction; (R14.4) the recorded score of the reference is updated with the justifying score in the same branch; (R14.5) the combined score is the matching metric on (reference array, prediction array, reference label, already matched predictions + candidate) of the uncropped pair. Delegated: the candidate scores the merge decisions start from are those of the pair's own arrays (R03.7). Further delegated: R03.3 (inclusive, exact threshold comparison), R03.1/R09.1 (no candidate pair lost), R15.8.",
@@ -370,7 +370,7 @@ def _check_combination(ctx, cls, f, ncs: Func, ref, pred, kinds=None, add_calls=
                 if isinstance(a, ast.Name):
                     d = single_def(f, a.id)
                     src = d if d is not None else a
-                ok = isinstance(src, ast.Call) and isinstance(src.func, ast.Attribute) and src.func.attr == "get_pred_labels_matched_to_ref" and len(src.args) == 1 and isinstance(src.args[0], ast.Name) and src.args[0].id == ref
+                ok = isinstance(src, ast.Call) and isinstance(src.func, ast.Attribute) and src.func.attr in labelmap_api(prog)["preds_of"] and len(src.args) == 1 and isinstance(src.args[0], ast.Name) and src.args[0].id == ref
                 if not ok and kinds is not None:
                     # a copy of <index>[ref] of a local index kept in lockstep with the label map
                     inner = src
